@@ -493,6 +493,15 @@ func (g *sgen) tag(s string) { g.tags[s] = true }
 
 func (g *sgen) pick(l []string) string { return l[g.r.Below(len(l))] }
 
+// us: one name in six begins with a single underscore (an ordinary name; only "__" is reserved)
+func (g *sgen) us(name string) string {
+	if g.r.Below(6) == 0 {
+		g.tag("underscore-name")
+		return "_" + name
+	}
+	return name
+}
+
 func (g *sgen) desc(indent string) {
 	d := g.pick(descPool)
 	if d != "" {
@@ -880,7 +889,7 @@ func (g *sgen) schema() string {
 		parents = g.closure(parents)
 		fs := g.implFields(parents)
 		for j, m := 0, 1+r.Below(4); j < m; j++ {
-			fs = append(fs, fieldSpec{name: fmt.Sprintf("o%df%d", i, j), t: g.wrap(g.outputBase(), 3), args: g.args("")})
+			fs = append(fs, fieldSpec{name: g.us(fmt.Sprintf("o%df%d", i, j)), t: g.wrap(g.outputBase(), 3), args: g.args("")})
 		}
 		objFields[name] = len(fs)
 		g.desc("")
@@ -920,7 +929,7 @@ func (g *sgen) schema() string {
 		g.desc("")
 		g.b.WriteString("type " + root + " {\n")
 		for j, m := 0, 1+r.Below(4); j < m; j++ {
-			g.writeField(fieldSpec{name: fmt.Sprintf("r%df%d", ri, j), t: g.wrap(g.outputBase(), 3), args: g.args("")}, true)
+			g.writeField(fieldSpec{name: g.us(fmt.Sprintf("r%df%d", ri, j)), t: g.wrap(g.outputBase(), 3), args: g.args("")}, true)
 		}
 		g.b.WriteString("}\n")
 	}
@@ -995,6 +1004,9 @@ var directed = []struct{ id, sdl string }{
 	{"wrapping-depth", `type Query { f: [[[Int!]!]!]! g: [[Query]!] h(a: [[[String]!]]! = [[["x"]]]): Int! }`},
 	{"union-and-object-possible", `type A { x: Int } type B { y: Int } union U = B | A type Query { u: U }`},
 	{"deprecated-reason-null-and-block", `type Query { f: Int @deprecated(reason: null) g: Int @deprecated(reason: """block reason""") h(a: Int @deprecated(reason: null)): Int }`},
+	// names beginning with ONE underscore are ordinary names (only "__" is reserved): every element class carries one
+	{"underscore-names", `directive @_d(_a: Int) on FIELD_DEFINITION enum _E { _A _B } input _I { _x: Int _y: _E = _A } interface _N { _id: ID! _ : Int } type _T implements _N { _id: ID! _ : Int _f(_a: _I): _E @_d(_a: 1) x_: Int } union _U = _T type Query { _t: _T _n: _N _u: _U _e(_i: _I = {_x: 1}): _E _service_like: Int _entities_like(_r: [ID!]!): [_U]! }`},
+	{"underscore-only-fields", `type _ { _: Int _ok_: Int } type Query { _: _ _1: Int _a_: Int }`},
 	{"default-control-characters", `type Query { f(a: String = "bell\u0007 del\u007f nbsp  zwsp​"): Int }`},
 }
 
